@@ -30,6 +30,15 @@ impl<'a> PreReleaseProcessor<'a> {
     }
 
     fn is_var_set(&self, var: &Var) -> bool {
+        // A label already placed in the schema counts as set even when it carried no number
+        // (e.g. "epoch.x.epoch"); pushing it again would be rejected as a duplicate component.
+        if self
+            .schema
+            .extra_core()
+            .contains(&Component::Var(var.clone()))
+        {
+            return true;
+        }
         match var {
             Var::PreRelease => self.vars.pre_release.is_some(),
             Var::Epoch => self.vars.epoch.is_some(),
